@@ -18,7 +18,7 @@ inductive VPred
   deriving Repr
 
 structure Bad where
-  slug : String
+  slug : Str
   wrapper : Str
   builder : Option Str                      -- `none`: every builder of the wrapper
   clauses : List (Option Str × VPred)       -- all must hold; field `none`: some field; `[]`: always
@@ -74,67 +74,80 @@ def Bad.applies (e : Bad) (b : Builder) (v : Valuation) : Bool :=
   e.clauses.all (fun c => clauseAt b v c b.fields 0)
 
 def knownBad : List Bad :=
-  [ { slug := "mcp-search-styles", wrapper := t!"mcp", builder := some t!"buildSearchArgs",
+  [ { slug := t!"mcp-search-styles", wrapper := t!"mcp", builder := some t!"buildSearchArgs",
       clauses := [(some t!"options.styles", .any)], what := "search --styles: no such option" },
-    { slug := "mcp-search-dry-run", wrapper := t!"mcp", builder := some t!"buildSearchArgs",
+    { slug := t!"mcp-search-dry-run", wrapper := t!"mcp", builder := some t!"buildSearchArgs",
       clauses := [(some t!"options.dryRun", .any)], what := "search --dry-run: no such option" },
-    { slug := "mcp-search-no-rename-files", wrapper := t!"mcp", builder := some t!"buildSearchArgs",
+    { slug := t!"mcp-search-no-rename-files", wrapper := t!"mcp", builder := some t!"buildSearchArgs",
       clauses := [(some t!"options.renameFiles", .any)], what := "search --no-rename-files: no such option" },
-    { slug := "mcp-search-no-rename-dirs", wrapper := t!"mcp", builder := some t!"buildSearchArgs",
+    { slug := t!"mcp-search-no-rename-dirs", wrapper := t!"mcp", builder := some t!"buildSearchArgs",
       clauses := [(some t!"options.renameDirs", .any)], what := "search --no-rename-dirs: no such option" },
-    { slug := "mcp-search-atomic-search", wrapper := t!"mcp", builder := some t!"buildSearchArgs",
+    { slug := t!"mcp-search-atomic-search", wrapper := t!"mcp", builder := some t!"buildSearchArgs",
       clauses := [(some t!"options.atomicSearch", .any)], what := "search --atomic-search: no such option" },
-    { slug := "mcp-plan-styles", wrapper := t!"mcp", builder := some t!"buildPlanArgs",
+    { slug := t!"mcp-plan-styles", wrapper := t!"mcp", builder := some t!"buildPlanArgs",
       clauses := [(some t!"options.styles", .any)], what := "plan --styles: no such option" },
-    { slug := "mcp-apply-plan", wrapper := t!"mcp", builder := some t!"buildApplyArgs",
+    { slug := t!"mcp-apply-plan", wrapper := t!"mcp", builder := some t!"buildApplyArgs",
       clauses := [(some t!"options.planPath", .any)], what := "apply --plan <path>: no such option (the path is a positional)" },
-    { slug := "mcp-preview-preview-only", wrapper := t!"mcp", builder := some t!"buildPreviewArgs",
+    { slug := t!"mcp-preview-preview-only", wrapper := t!"mcp", builder := some t!"buildPreviewArgs",
       clauses := [], what := "plan --preview-only [--plan <path>]: no such options, and plan's two positionals are missing" },
-    { slug := "mcp-rename-preview-json", wrapper := t!"mcp", builder := some t!"rename",
+    { slug := t!"mcp-rename-preview-json", wrapper := t!"mcp", builder := some t!"rename",
       clauses := [(some t!"options.preview", .eq (.str t!"json"))], what := "rename --preview json: not a PreviewArg value" },
-    { slug := "mcp-replace-preview-json", wrapper := t!"mcp", builder := some t!"replace",
+    { slug := t!"mcp-replace-preview-json", wrapper := t!"mcp", builder := some t!"replace",
       clauses := [(some t!"options.preview", .eq (.str t!"json"))], what := "replace --preview json: not a PreviewArg value" },
-    { slug := "mcp-rename-only-with-exclude-styles", wrapper := t!"mcp", builder := some t!"rename",
+    { slug := t!"mcp-rename-only-with-exclude-styles", wrapper := t!"mcp", builder := some t!"rename",
       clauses := [(some t!"options.onlyStyles", .any), (some t!"options.excludeStyles", .any)],
       what := "rename --only-styles with --exclude-styles: conflicts_with" },
-    { slug := "mcp-rename-only-with-include-styles", wrapper := t!"mcp", builder := some t!"rename",
+    { slug := t!"mcp-rename-only-with-include-styles", wrapper := t!"mcp", builder := some t!"rename",
       clauses := [(some t!"options.onlyStyles", .any), (some t!"options.includeStyles", .any)],
       what := "rename --only-styles with --include-styles: conflicts_with" },
-    { slug := "mcp-search-includes-comma", wrapper := t!"mcp", builder := some t!"buildSearchArgs",
+    { slug := t!"mcp-search-includes-comma", wrapper := t!"mcp", builder := some t!"buildSearchArgs",
       clauses := [(some t!"options.includes", .comma)], what := "search --include 'a,b': one pattern arrives as two (value_delimiter)" },
-    { slug := "mcp-search-excludes-comma", wrapper := t!"mcp", builder := some t!"buildSearchArgs",
+    { slug := t!"mcp-search-excludes-comma", wrapper := t!"mcp", builder := some t!"buildSearchArgs",
       clauses := [(some t!"options.excludes", .comma)], what := "search --exclude 'a,b': one pattern arrives as two (value_delimiter)" },
-    { slug := "mcp-plan-includes-comma", wrapper := t!"mcp", builder := some t!"buildPlanArgs",
+    { slug := t!"mcp-plan-includes-comma", wrapper := t!"mcp", builder := some t!"buildPlanArgs",
       clauses := [(some t!"options.includes", .comma)], what := "plan --include 'a,b': one pattern arrives as two (value_delimiter)" },
-    { slug := "mcp-plan-excludes-comma", wrapper := t!"mcp", builder := some t!"buildPlanArgs",
+    { slug := t!"mcp-plan-excludes-comma", wrapper := t!"mcp", builder := some t!"buildPlanArgs",
       clauses := [(some t!"options.excludes", .comma)], what := "plan --exclude 'a,b': one pattern arrives as two (value_delimiter)" },
-    { slug := "mcp-leading-hyphen", wrapper := t!"mcp", builder := none,
+    -- the next two exist only while the preview builder re-plans with the stored filters through the
+    -- unrepaired addIncludeArgs/addExcludeArgs (c20_mcp_wrapper_flags.diff without c20_wrappers_hyphen_and_commas.diff)
+    { slug := t!"mcp-preview-includes-comma", wrapper := t!"mcp", builder := some t!"buildPreviewArgs",
+      clauses := [(some t!"plan.includes", .comma)], what := "plan --dry-run --include 'a,b' (preview): one stored pattern arrives as two (value_delimiter)" },
+    { slug := t!"mcp-preview-excludes-comma", wrapper := t!"mcp", builder := some t!"buildPreviewArgs",
+      clauses := [(some t!"plan.excludes", .comma)], what := "plan --dry-run --exclude 'a,b' (preview): one stored pattern arrives as two (value_delimiter)" },
+    { slug := t!"mcp-leading-hyphen", wrapper := t!"mcp", builder := none,
       clauses := [(none, .hyphen)], what := "a term, path, pattern or id starting with '-' is pushed without `--` or `=`: parsed as a flag" },
-    { slug := "vscode-apply-id", wrapper := t!"vscode", builder := some t!"apply",
+    { slug := t!"vscode-apply-id", wrapper := t!"vscode", builder := some t!"apply",
       clauses := [(some t!"planId", .any)], what := "apply --id <id>: no such option (the id is a positional)" },
-    { slug := "vscode-search-no-rename-paths", wrapper := t!"vscode", builder := some t!"search",
+    { slug := t!"vscode-search-no-rename-paths", wrapper := t!"vscode", builder := some t!"search",
       clauses := [(some t!"options.renamePaths", .any)], what := "search --no-rename-paths: no such option" },
-    { slug := "vscode-search-atomic-search", wrapper := t!"vscode", builder := some t!"search",
+    { slug := t!"vscode-search-atomic-search", wrapper := t!"vscode", builder := some t!"search",
       clauses := [(some t!"options.atomicSearch", .any)], what := "search --atomic-search: no such option" },
-    { slug := "vscode-leading-hyphen", wrapper := t!"vscode", builder := none,
+    { slug := t!"vscode-leading-hyphen", wrapper := t!"vscode", builder := none,
       clauses := [(none, .hyphen)], what := "a term, glob or id starting with '-' is pushed without `--` or `=`: parsed as a flag" } ]
 
-def badFor (b : Builder) (v : Valuation) : Option Bad := knownBad.find? (fun e => e.applies b v)
+/-- the entries that are in force: `live` lists the slugs of the findings that still reproduce
+    (`Gen/WrappersVerdict.lean`, recomputed from the current sources on every run) -/
+def liveBad (live : List Str) : List Bad := knownBad.filter (fun e => Cli.anyIs live e.slug)
 
-def usesBad (b : Builder) (v : Valuation) : Bool := knownBad.any (fun e => e.applies b v)
+def badFor (live : List Str) (b : Builder) (v : Valuation) : Option Bad :=
+  (liveBad live).find? (fun e => e.applies b v)
+
+def usesBad (live : List Str) (b : Builder) (v : Valuation) : Bool :=
+  (liveBad live).any (fun e => e.applies b v)
 
 -- the part of the enumerated space on which the kernel evaluates the property (see Props/C20.lean)
 
 /-- add field `i` with its `k`-th representative when the valuation stays outside `knownBad` -/
-def greedyAdd (b : Builder) (k : Nat) (v : Valuation) (i : Nat) : Valuation :=
+def greedyAdd (live : List Str) (b : Builder) (k : Nat) (v : Valuation) (i : Nat) : Valuation :=
   match b.fields[i]? with
   | none => v
   | some f =>
     let v' := setAt v i (pick f k)
-    if usesBad b v' then v else v'
+    if usesBad live b v' then v else v'
 
 /-- as many fields as possible at once (in the given order) without touching `knownBad` -/
-def greedy (b : Builder) (k : Nat) (order : List Nat) : Valuation := order.foldl (greedyAdd b k) (baseVal b)
+def greedy (live : List Str) (b : Builder) (k : Nat) (order : List Nat) : Valuation :=
+  order.foldl (greedyAdd live b k) (baseVal b)
 
 def singlesAt (b : Builder) : List Field → Nat → List Valuation
   | [], _ => []
@@ -163,14 +176,37 @@ def badCombos (b : Builder) : List Valuation :=
   (knownBad.filter (fun e => seq e.wrapper b.wrapper && (match e.builder with | some n => seq n b.name | none => false)
       && Nat.ble 2 e.clauses.length)).map (fun e => comboOf b e.clauses (baseVal b))
 
-/-- small builders: the whole enumerated space.  Large ones: nothing set, every field alone with each of
-    its representatives, every hostile value, the field combinations named in
-    `knownBad`, and per profile the two maximal good combinations -/
-def core (b : Builder) : List Valuation :=
-  if Nat.ble (masks b.fields).length 64 then enumerate b
+def isSmall (b : Builder) : Bool := Nat.ble (masks b.fields).length 64
+
+/-- the part of `core` that does not depend on the verdict: nothing set, every field alone with each
+    representative, every hostile value, the field combinations named in `knownBad` -/
+def probe (b : Builder) : List Valuation :=
+  if isSmall b then enumerate b
+  else baseVal b :: singlesAt b b.fields 0 ++ hostileVals b ++ badCombos b
+
+/-- small builders: the whole enumerated space.  Large ones: `probe` plus, per value profile, the two
+    maximal combinations of fields outside the entries in force -/
+def core (live : List Str) (b : Builder) : List Valuation :=
+  if isSmall b then enumerate b
   else
     let idx := List.range b.fields.length
-    baseVal b :: singlesAt b b.fields 0 ++ hostileVals b ++ badCombos b ++
-      (List.range (profiles b)).flatMap (fun k => [greedy b k idx, greedy b k idx.reverse])
+    probe b ++ (List.range (profiles b)).flatMap (fun k => [greedy live b k idx, greedy live b k idx.reverse])
+
+/-- `e` applies to this valuation and no other entry that names a field does (an entry without clauses
+    covers a whole builder and does not hide the more specific ones) -/
+def appliesAlone (e : Bad) (b : Builder) (v : Valuation) : Bool :=
+  e.applies b v && knownBad.all (fun e' => seq e'.slug e.slug || e'.clauses.isEmpty || !(e'.applies b v))
+
+def Bad.concerns (e : Bad) (b : Builder) : Bool :=
+  seq e.wrapper b.wrapper &&
+  (match e.builder with
+   | none => true
+   | some n => seq n b.name)
+
+/-- the verdict: slugs of the `knownBad` entries that reproduce, i.e. for which some probed valuation
+    falls under this entry and no other, and its command line is rejected or misread -/
+def liveSlugsOf (g : Cli.Grammar) (bs : List Builder) : List Str :=
+  (knownBad.filter (fun e => bs.any (fun b => e.concerns b &&
+    (probe b).any (fun v => appliesAlone e b v && !(okFor g b v))))).map (·.slug)
 
 end Wrap
